@@ -4,7 +4,10 @@ import (
 	"bytes"
 	"encoding/json"
 	"fmt"
+	"os"
+	"path/filepath"
 	"reflect"
+	"strings"
 	"unicode/utf8"
 
 	"verifharness/drv"
@@ -111,7 +114,7 @@ func C17(r *drv.Run) {
 	if !quick(r) {
 		n = 80000
 	}
-	r.Rule = "result lists empty / one / many from find and replace commands, flat captures and named-loop (nested) variables, produced by fixed programs that capture arbitrary bytes and by the any-program generator, over texts with quotes, backslashes, control bytes, <>&, U+2028/2029, multi-byte UTF-8, invalid UTF-8, and code points of every plane (format characters incl. astral tag characters, C1 controls, non-characters, private use, U+10FFFF; fixed and seeded random). Oracle: Json() and FormattedJson() return without panic, json.Valid, decode to equal documents, one object per match whose fields equal the in-memory match (replacement present iff the match has one); exact string equality is demanded where the in-memory strings are valid UTF-8. Non-trivial = a result list with >= 1 match rendered and decoded; distinct by (program, text)."
+	r.Rule = "result lists empty / one / many from find and replace commands, flat captures and named-loop (nested) variables, produced by fixed programs that capture arbitrary bytes and by the any-program generator, over texts with quotes, backslashes, control bytes, <>&, U+2028/2029, multi-byte UTF-8, invalid UTF-8, and code points of every plane (format characters incl. astral tag characters, C1 controls, non-characters, private use, U+10FFFF; fixed and seeded random). Also RunFiles results whose file names need escaping or are spelled in a non-canonical way (quotes, backslash, <&>, non-ASCII, newline and tab in names; dir//name, dir/./name, dir/sub/../name; a directory argument with a trailing slash): the filename member must be the in-memory name, byte for byte. Oracle: Json() and FormattedJson() return without panic, json.Valid, decode to equal documents, one object per match whose fields equal the in-memory match (replacement present iff the match has one); exact string equality is demanded where the in-memory strings are valid UTF-8. Non-trivial = a result list with >= 1 match rendered and decoded; distinct by (program, text)."
 	r.Assumptions = []string{"strings that are not valid UTF-8 cannot round-trip through JSON; for those only validity, document equality of the two renderings and all non-string fields are demanded"}
 	fixed := len(c17Programs)
 	r.Exec(6*fixed+n, drv.ExecOpts{Batch: 100}, func(i int) *drv.Item {
@@ -150,121 +153,18 @@ func C17(r *drv.Run) {
 				if ti >= len(res.Runs) {
 					break
 				}
-				run := &res.Runs[ti]
-				r.Eval(1)
-				r.Count("runs_total", 1)
-				if runTrouble(r, run, &c, src, text, false) {
-					continue
-				}
-				if run.JSONErr != nil {
-					r.Violate(&drv.Violation{Sig: "Json()-panics:" + run.JSONErr.Frame, Panic: run.JSONErr.Msg, Frame: run.JSONErr.Frame, Src: src, Text: string(text), Case: &c})
-					continue
-				}
-				if run.FJSONErr != nil {
-					r.Violate(&drv.Violation{Sig: "FormattedJson()-panics:" + run.FJSONErr.Frame, Panic: run.FJSONErr.Msg, Frame: run.FJSONErr.Frame, Src: src, Text: string(text), Case: &c})
-					continue
-				}
-				bad := func(sig, what string) {
-					r.Violate(&drv.Violation{Sig: sig, Src: src, Text: string(text), Case: &c,
-						Detail: map[string]any{"what": what, "json": oneLineN(string(run.JSON), 300)}})
-				}
-				if !json.Valid(run.JSON) || !json.Valid(run.FJSON) {
-					bad("invalid-json", "json.Valid is false")
-					continue
-				}
-				var d1, d2 any
-				if json.Unmarshal(run.JSON, &d1) != nil || json.Unmarshal(run.FJSON, &d2) != nil {
-					bad("undecodable-json", "Unmarshal failed")
-					continue
-				}
-				if !reflect.DeepEqual(d1, d2) {
-					bad("compact-and-formatted-differ", "documents differ")
-					continue
-				}
-				// exactly one document: nothing but whitespace after it
-				dec := json.NewDecoder(bytes.NewReader(run.JSON))
-				var tmp any
-				dec.Decode(&tmp)
-				if dec.More() {
-					bad("more-than-one-document", "trailing data")
-					continue
-				}
-				arr, ok := d1.([]any)
-				if !ok {
-					if d1 == nil && len(run.Matches) == 0 {
-						r.Count("empty_lists_rendered_as_null", 1)
-						continue
-					}
-					bad("not-an-array", fmt.Sprintf("top level is %T", d1))
-					continue
-				}
-				if len(arr) != len(run.Matches) {
-					bad("object-count", fmt.Sprintf("%d objects for %d matches", len(arr), len(run.Matches)))
-					continue
-				}
-				okAll := true
-				for k := range arr {
-					m := &run.Matches[k]
-					got, isObj := arr[k].(map[string]any)
-					if !isObj {
-						bad("element-not-object", "")
-						okAll = false
-						break
-					}
-					want := expectedObj(m, m.HasRepl)
-					_, hasRepl := got["replacement"]
-					if hasRepl != m.HasRepl {
-						bad("replacement-presence", fmt.Sprintf("replacement key present=%v, match has replacement=%v", hasRepl, m.HasRepl))
-						okAll = false
-						break
-					}
-					exact := utf8.Valid(m.Val) && utf8.Valid(m.Repl) && allValidUTF8(m.Vars) && utf8.ValidString(m.File)
-					if exact {
-						if !reflect.DeepEqual(got, want) {
-							gb, _ := json.Marshal(got)
-							wb, _ := json.Marshal(want)
-							bad("object-differs-from-match", "got "+oneLineN(string(gb), 250)+" want "+oneLineN(string(wb), 250))
-							okAll = false
-							break
-						}
-						r.Count("objects_compared_exactly", 1)
-					} else {
-						for _, f := range []string{"matchNumber", "offset", "line", "column", "filename"} {
-							if !reflect.DeepEqual(got[f], want[f]) {
-								bad("field-differs:"+f, fmt.Sprint(got[f], " vs ", want[f]))
-								okAll = false
-							}
-						}
-						if !okAll {
-							break
-						}
-						r.Count("objects_compared_non_utf8", 1)
-					}
-					if s, mp := countVars(m.Vars); mp > 1 {
-						r.Count("nested_variable_objects", 1)
-						_ = s
-					}
-					if m.HasRepl {
-						r.Count("replacement_objects", 1)
-					}
-				}
-				if okAll {
-					if len(arr) > 0 {
-						r.Nontrivial(src + "\x00" + string(text))
-					} else {
-						r.Count("empty_lists", 1)
-					}
-					if len(arr) > 1 {
-						r.Count("lists_with_many", 1)
-					}
-				}
+				c17CheckRun(r, &res.Runs[ti], src, text, &c)
 			}
 			if i%97 == 0 {
 				r.Sample(map[string]any{"program": src, "text": string(texts[0])})
 			}
 		}}
 	})
+	c17Files(r)
 	if r.NViolations() == 0 {
+		if r.Counter("file_results_with_unusual_names_verified") == 0 {
+			r.Inconclusive("coverage floor: no RunFiles result with unusual file names rendered")
+		}
 		for _, k := range []string{"objects_compared_exactly", "objects_compared_non_utf8", "nested_variable_objects", "replacement_objects", "lists_with_many"} {
 			if r.Counter(k) == 0 {
 				r.Inconclusive("coverage floor: " + k + " = 0")
@@ -274,4 +174,175 @@ func C17(r *drv.Run) {
 			r.Inconclusive("coverage floor: no empty result list rendered")
 		}
 	}
+}
+
+// c17CheckRun validates the two renderings of one result list against the in-memory matches.
+func c17CheckRun(r *drv.Run, run *wire.Run, src string, text []byte, c *wire.Case) {
+	r.Eval(1)
+	r.Count("runs_total", 1)
+	if runTrouble(r, run, c, src, text, false) {
+		return
+	}
+	if run.JSONErr != nil {
+		r.Violate(&drv.Violation{Sig: "Json()-panics:" + run.JSONErr.Frame, Panic: run.JSONErr.Msg, Frame: run.JSONErr.Frame, Src: src, Text: string(text), Case: c})
+		return
+	}
+	if run.FJSONErr != nil {
+		r.Violate(&drv.Violation{Sig: "FormattedJson()-panics:" + run.FJSONErr.Frame, Panic: run.FJSONErr.Msg, Frame: run.FJSONErr.Frame, Src: src, Text: string(text), Case: c})
+		return
+	}
+	bad := func(sig, what string) {
+		r.Violate(&drv.Violation{Sig: sig, Src: src, Text: string(text), Case: c,
+			Detail: map[string]any{"what": what, "json": oneLineN(string(run.JSON), 300)}})
+	}
+	if !json.Valid(run.JSON) || !json.Valid(run.FJSON) {
+		bad("invalid-json", "json.Valid is false")
+		return
+	}
+	var d1, d2 any
+	if json.Unmarshal(run.JSON, &d1) != nil || json.Unmarshal(run.FJSON, &d2) != nil {
+		bad("undecodable-json", "Unmarshal failed")
+		return
+	}
+	if !reflect.DeepEqual(d1, d2) {
+		bad("compact-and-formatted-differ", "documents differ")
+		return
+	}
+	// exactly one document: nothing but whitespace after it
+	dec := json.NewDecoder(bytes.NewReader(run.JSON))
+	var tmp any
+	dec.Decode(&tmp)
+	if dec.More() {
+		bad("more-than-one-document", "trailing data")
+		return
+	}
+	arr, ok := d1.([]any)
+	if !ok {
+		if d1 == nil && len(run.Matches) == 0 {
+			r.Count("empty_lists_rendered_as_null", 1)
+			return
+		}
+		bad("not-an-array", fmt.Sprintf("top level is %T", d1))
+		return
+	}
+	if len(arr) != len(run.Matches) {
+		bad("object-count", fmt.Sprintf("%d objects for %d matches", len(arr), len(run.Matches)))
+		return
+	}
+	okAll := true
+	for k := range arr {
+		m := &run.Matches[k]
+		got, isObj := arr[k].(map[string]any)
+		if !isObj {
+			bad("element-not-object", "")
+			okAll = false
+			break
+		}
+		want := expectedObj(m, m.HasRepl)
+		_, hasRepl := got["replacement"]
+		if hasRepl != m.HasRepl {
+			bad("replacement-presence", fmt.Sprintf("replacement key present=%v, match has replacement=%v", hasRepl, m.HasRepl))
+			okAll = false
+			break
+		}
+		exact := utf8.Valid(m.Val) && utf8.Valid(m.Repl) && allValidUTF8(m.Vars) && utf8.ValidString(m.File)
+		if exact {
+			if !reflect.DeepEqual(got, want) {
+				gb, _ := json.Marshal(got)
+				wb, _ := json.Marshal(want)
+				bad("object-differs-from-match", "got "+oneLineN(string(gb), 250)+" want "+oneLineN(string(wb), 250))
+				okAll = false
+				break
+			}
+			r.Count("objects_compared_exactly", 1)
+		} else {
+			for _, f := range []string{"matchNumber", "offset", "line", "column", "filename"} {
+				if !reflect.DeepEqual(got[f], want[f]) {
+					bad("field-differs:"+f, fmt.Sprint(got[f], " vs ", want[f]))
+					okAll = false
+				}
+			}
+			if !okAll {
+				break
+			}
+			r.Count("objects_compared_non_utf8", 1)
+		}
+		if s, mp := countVars(m.Vars); mp > 1 {
+			r.Count("nested_variable_objects", 1)
+			_ = s
+		}
+		if m.HasRepl {
+			r.Count("replacement_objects", 1)
+		}
+	}
+	if okAll {
+		if len(arr) > 0 {
+			r.Nontrivial(src + "\x00" + string(text))
+		} else {
+			r.Count("empty_lists", 1)
+		}
+		if len(arr) > 1 {
+			r.Count("lists_with_many", 1)
+		}
+	}
+
+}
+
+// c17Files: result lists that come from files, with names that a JSON encoder has to escape and path spellings that
+// a tidy-minded encoder might be tempted to normalise.
+func c17Files(r *drv.Run) {
+	dir := filepath.Join(r.WorkDir, "c17files")
+	os.MkdirAll(filepath.Join(dir, "sub"), 0o755)
+	os.MkdirAll(filepath.Join(dir, "d i r"), 0o755)
+	names := []string{"plain.txt", "we\"ird\\na'me<&>.txt", "caf\u00e9 \u20ac \U0001F600.txt", "new\nline\ttab.txt", "sub/inner.txt", "d i r/a b.txt", "sub/%d.txt"}
+	content := []byte("he said \"hi\" 12\nab <b>&amp; caf\u00e9 7\n")
+	for _, n := range names {
+		os.WriteFile(filepath.Join(dir, n), content, 0o644)
+	}
+	spell := func(n string, k int) string {
+		switch k % 5 {
+		case 1:
+			return dir + "//" + n
+		case 2:
+			return dir + "/./" + n
+		case 3:
+			return dir + "/sub/../" + n
+		case 4:
+			return dir + "/" + strings.Replace(n, "/", "//", 1)
+		}
+		return filepath.Join(dir, n)
+	}
+	progs := []string{c17Programs[0], c17Programs[2], c17Programs[3], c17Programs[5], "find all at least 1 digit", "replace all (letter = c) with filename ':' c"}
+	type job struct {
+		src   string
+		files []string
+	}
+	var jobs []job
+	for pi, src := range progs {
+		var fl []string
+		for ni, n := range names {
+			fl = append(fl, spell(n, pi+ni))
+		}
+		jobs = append(jobs, job{src, fl})
+		// directory arguments, with and without a trailing slash: RunFiles searches the files inside
+		jobs = append(jobs, job{src, []string{dir + "/sub/", dir + "/d i r", spell("plain.txt", pi)}})
+	}
+	r.Exec(len(jobs), drv.ExecOpts{Batch: 4}, func(i int) *drv.Item {
+		jb := jobs[i]
+		c := wire.Case{Op: "runfiles", Src: []byte(jb.src), Files: jb.files, Mode: "NOTHING", WantJSON: true, StepBudget: 2_000_000}
+		return &drv.Item{Case: c, Check: func(res *wire.Result) {
+			if crashOrGuard(r, res, &c, jb.src, false) {
+				return
+			}
+			if res.Compile == nil || !res.Compile.OK || len(res.Runs) < 1 {
+				r.Inconclusive("fixed program rejected: " + jb.src)
+				return
+			}
+			before := r.NViolations()
+			c17CheckRun(r, &res.Runs[0], jb.src, []byte(strings.Join(jb.files, " | ")), &c)
+			if r.NViolations() == before && len(res.Runs[0].Matches) > 0 {
+				r.Count("file_results_with_unusual_names_verified", 1)
+			}
+		}}
+	})
 }
